@@ -114,6 +114,8 @@ def replay_doc(ctx, doc, n, genes=None):
                 ctx.violation(f"{cls}/invalid_not_value_error/{doc['inclass']}", f"{cls}.{desc} raised {type(e).__name__} instead of ValueError: {e}"[:300], rp)
         return
     A, B = make_table(doc["A"], n, genes=genes), make_table(doc["B"], n + 1, extra=bool(n % 2), genes=genes)
+    if doc["A"] == doc["B"] and n % 2 == 0:
+        B = A                                   # the very same object: cdist(X, X)
     a0, b0 = A.copy(deep=True), B.copy(deep=True)
     ctx.case(dict(cls=cls, wts=wts, A=A.values.tolist(), B=B.values.tolist()), nontrivial=any(v for row in doc["acc"] for v in row))
     try:
@@ -161,6 +163,14 @@ def make_sessions(ctx, n, nall):
             except Exception as e:     # noqa: BLE001
                 ev.update(raised=True, value_error=isinstance(e, ValueError), vec=[], exc=f"{type(e).__name__}: {e}"[:200])
             ev["modified"] = not a0.equals(ta)
+            # ... and the full self-comparison matrix cdist(X, X) with the same object
+            ev2 = dict(op="Cdist", raised=False, value_error=False, modified=False)
+            try:
+                ev2["D"] = [[int(v) if float(v) == int(v) else -7 for v in r] for r in np.asarray(m.calc_cdist_matrix(ta, ta)).tolist()]
+            except Exception as e:     # noqa: BLE001
+                ev2.update(raised=True, value_error=isinstance(e, ValueError), D=[], exc=f"{type(e).__name__}: {e}"[:200])
+            out.append(dict(sid=sid, cls=cls, wts=wts, inclass="table", A=A, B=B, events=[ev, ev2]))
+            continue
         out.append(dict(sid=sid, cls=cls, wts=wts, inclass="table", A=A, B=B, events=[ev]))
     return out
 
